@@ -210,9 +210,10 @@ def parse_custom_metadata(text_element: Dict[str, any],
     metadata = {
         'custom_attributes': parse_custom_attributes(text_element['@custom'])
     }
-    if 'readingOrder {' in text_element['@custom']:
+    # (test for a tag of exactly this name: 'myreadingOrder {…}' is another tag)
+    if re.search(r'\breadingOrder {.*?}', text_element['@custom']):
         metadata['reading_order'] = parse_custom_metadata_element(text_element['@custom'], 'readingOrder')
-    if 'structure {' in text_element['@custom']:
+    if re.search(r'\bstructure {.*?}', text_element['@custom']):
         metadata['structure'] = parse_custom_metadata_element(text_element['@custom'], 'structure')
         if 'type' in metadata['structure']:
             metadata['type'] = metadata['structure']['type']
